@@ -311,7 +311,7 @@ func ruleEnv(c *Ctx) {
 	for rf := range reach {
 		rinfo := rf.Pkg.TypesInfo
 		for _, call := range rf.Calls() {
-			if p.CalleeName(rf, call) != "os.Getenv" {
+			if nm := p.CalleeName(rf, call); nm != "os.Getenv" && nm != "os.LookupEnv" {
 				continue
 			}
 			k := ""
@@ -402,6 +402,7 @@ func (p *Prog) hostEnvNeutralises(f *Func, hostExpr ast.Expr, k string, entries 
 }
 
 func (p *Prog) envVersions(c *Ctx, f *Func) {
+	p.legacyFoldBeforeOffer(c, f)
 	info := f.Pkg.TypesInfo
 	vpF := p.FieldObj(modPath, "ClientConfig", "VersionedPlugins")
 	// the slice joined into PLUGIN_PROTOCOL_VERSIONS
@@ -512,4 +513,37 @@ func (p *Prog) fieldByQualifiedName(pkgPath, typeName, field string) *types.Var 
 		}
 	}
 	return nil
+}
+
+// legacyFoldBeforeOffer: the legacy ProtocolVersion/Plugins pair is stored into
+// ClientConfig.VersionedPlugins before the offered version list is built from its keys.
+func (p *Prog) legacyFoldBeforeOffer(c *Ctx, f *Func) {
+	info := f.Pkg.TypesInfo
+	g := p.Graph(f)
+	vpF := p.FieldObj(modPath, "ClientConfig", "VersionedPlugins")
+	var foldN, rangeN *Node
+	for _, m := range g.Nodes {
+		if as, ok := m.Ast.(*ast.AssignStmt); ok && len(as.Lhs) == 1 {
+			if ix, ok := ast.Unparen(as.Lhs[0]).(*ast.IndexExpr); ok && SelField(info, ix.X) == vpF {
+				foldN = m
+			}
+		}
+	}
+	ast.Inspect(f.Body, func(x ast.Node) bool {
+		if rs, ok := x.(*ast.RangeStmt); ok && SelField(info, rs.X) == vpF {
+			rangeN = g.NodeOf(rs.X)
+		}
+		return true
+	})
+	if foldN != nil && rangeN != nil {
+		_, before := g.ReachAfter(foldN, nil, nil)[rangeN]
+		_, afterwards := g.ReachAfter(rangeN, nil, nil)[foldN]
+		if before && !afterwards {
+			c.R.Hold("R-NEG", p.Pos(foldN.Ast), f.Name, "legacy version folded in before the offer is built", "", true)
+		} else {
+			c.R.Violate("R-NEG", p.Pos(foldN.Ast), f.Name, "legacy version folded in before the offer is built", "the legacy ProtocolVersion/Plugins pair is added after the offered list was built: it is accepted but never offered", nil)
+		}
+	} else {
+		c.R.Violate("R-NEG", p.Pos(f.Node()), f.Name, "legacy version folded in before the offer is built", "no store of the legacy plugin set into ClientConfig.VersionedPlugins before the offer", nil)
+	}
 }
